@@ -23,9 +23,20 @@ type RowFmtPackage struct {
 
 // ReadFrom implements the tds.Package interface.
 func (pkg *RowFmtPackage) ReadFrom(ch BytesChannel) error {
-	totalLength, err := ch.Uint32()
-	if err != nil {
-		return ErrNotEnoughBytes
+	// TDS_ROWFMT has a two byte length, TDS_ROWFMT2 a four byte length.
+	var totalLength uint32
+	if pkg.wide {
+		var err error
+		totalLength, err = ch.Uint32()
+		if err != nil {
+			return ErrNotEnoughBytes
+		}
+	} else {
+		length, err := ch.Uint16()
+		if err != nil {
+			return ErrNotEnoughBytes
+		}
+		totalLength = uint32(length)
 	}
 
 	colCount, err := ch.Uint16()
